@@ -6,6 +6,14 @@ props = [json.loads(l)["id"] for l in open(os.path.join(ROOT, "properties.jsonl"
 
 # id -> (level category, technique, level text, level note, design ref)
 CLAIMED = {
+ "C07": ("exploration", "proptest-driven model-based testing of table operation histories against an insertion-ordered Vec model (host API path)",
+         "Random histories (<=120 ops) over 1-4 aliased tables through the host API (insert/get/append/pop/remove/len/nth_key/iter/keys), keys chosen to collide in the table's hash part at every capacity of its growth sequence and to probe value equality (fresh string objects per lookup, ints/reals/nil, reserved-hash ints); a Vec<(key,value)> model is compared after every operation on every table: length, full iteration order, keys(), nth_key and get of every present key. Search, not proof; the script-card path is covered by the program-level checks, not here.",
+         "Trusts the 20-line Vec model; memory limit raised so that no collection interferes (GC is C02's subject).",
+         "DESIGN.md section 4, C07"),
+ "C19": ("exploration", "proptest-driven algebraic-law checking over generated value triples with a numeric reference model for the ordering",
+         "Random triples of host-constructed values with deliberately related members (equal-content copies, reordered/prefix/deep-different tables, int/real twins, length twins, signed zeros, 2^53/2^63 edges); all ordered pairs are checked against the equivalence, hash-consistency (std hash and table-key aliasing), order/equality coherence, asymmetry and numeric-model laws exactly on the domains the statement gives. Search, not proof.",
+         "The numeric model encodes the statement's coercions (nil=0, string/table=length against a number); ints beyond 2^53 against reals and reordered tables are observed, not asserted.",
+         "DESIGN.md section 4, C19"),
  "C12": ("exploration", "proptest-driven model-based testing of operation histories against std HashMap, with controlled-hash keys and fail-at-n allocation fault sweeps",
          "Random histories (<=200 ops) over keys whose hash bytes the generator chooses (collision groups for every capacity of the growth sequence, wrap-around homes, equal-hash twins, the reserved hash 0), compared with std::collections::HashMap after every operation including full get/contains/iter of every key ever used, a per-instance drop ledger and an allocator ledger; one third of the cases re-run the history once per allocation index with that allocation failing (exhaustive over the single failure points of that history). Search, not proof.",
          "Trusts std HashMap as reference and the 32-bit FNV/home formulas only for *choosing* keys (a wrong formula weakens coverage labels, not soundness). Clone is exempt from failure injection.",
